@@ -1,0 +1,6 @@
+//go:build !verif
+
+package helper
+
+// VerifStage is a no-op unless the module is built with the verif tag.
+func VerifStage(kind string, par int, ins []any, outs []any, extra ...int) {}
